@@ -15,6 +15,8 @@ NA = {
            "to decide (DESIGN.md section 10); model-based input testing would be the right, different, technique.",
 }
 ALL = [f"C{n:02d}" for n in range(1, 21)]
+# modules that are finished and reviewed; others may exist in props/ while being written
+READY = [x.strip() for x in open(os.path.join(HERE, "tools", "ready.txt")).read().split() if x.strip()]
 
 checks = []
 na = []
@@ -23,7 +25,7 @@ for pid in ALL:
     if pid in NA:
         na.append({"property_id": pid, "reason": NA[pid]})
         continue
-    if not os.path.exists(path):
+    if not os.path.exists(path) or pid not in READY:
         na.append({"property_id": pid, "reason": "not claimed yet: the simulated check for this property has not been built "
                                                   "(work in progress; design in DESIGN.md section 9)"})
         continue
